@@ -241,7 +241,7 @@ Proof.
   assert (Hu : regu u s) by (exists a; auto).
   destruct (match a_st a, e_msg e with Terminated, SWatch => false | Terminated, _ => true | _, _ => false end);
     [intros H; inversion H; subst; apply fl_cs, cs_refl|].
-  destruct (e_msg e) as [| |g|who| |r| | | |] eqn:Em.
+  destruct (e_msg e) as [| |g|who| |r| | | | |] eqn:Em.
   - (* SLaunch *) intros H. apply fl_cs. revert H. apply (bind_rel cs); [apply cs_trans| |].
     + intros s1 o1 p1 E. eapply cs_handle; exact E.
     + intros s1 s2 o2 p2 H; inversion H; subst. apply cs_upd_actor.
@@ -302,6 +302,7 @@ Proof.
   - intros H; inversion H; subst. apply fl_cs, cs_upd_actor.
   - intros H; inversion H; subst; apply fl_cs, cs_refl.
   - intros H; inversion H; subst; apply fl_cs, cs_refl.
+  - (* SResumeReq *) destruct (a_st a); intros H; inversion H; subst; apply fl_cs; try apply cs_refl. apply cs_deliver_sys.
 Qed.
 
 Lemma fl_run_actor s u s' o : Inv s -> run_actor roles s u = Some (s', o) -> fl s s'.
